@@ -322,6 +322,53 @@ theorem ticks_replace_link (s s' : DState) (p : Path) (i dn : Nat) (ts : List Ra
   obtain ⟨_, h2, h3, _, h5, _⟩ := setTicks_spec h hdn
   exact ⟨h3, h5, h2⟩
 
+/-- the ticks setter looks at nothing but the descriptor's kind and the new ticks themselves: whatever the dimension
+reports at the moment — stored ticks, or the values of a link, also when these are exactly `ts` — the assignment is
+accepted and has its full effect (`ticks_replace_link`); there is no "unchanged value" shortcut -/
+theorem set_ticks_accepted_iff (s : DState) (p : Path) (i dn : Nat) (ts : List Rat) (hdn : dimAt s p i = .ok dn) :
+    (∃ s', setTicks s p i ts = .ok s') ↔
+      (kindOf s.g dn = kDimRange ∧ descending ts = false ∧ ts.isEmpty = false) := by
+  unfold setTicks
+  simp only [hdn]
+  by_cases hk : kindOf s.g dn = kDimRange
+  · cases hd : descending ts <;> cases he : ts.isEmpty <;> simp [hk, hd, he]
+  · have : (kindOf s.g dn != kDimRange) = true := by simpa using hk
+    simp [this, hk]
+
+/-- "freezing" the ticks: a linked range dimension is assigned exactly the values it reports at that moment.  The
+link is replaced all the same (`has_link`, `is_alias` False, the ticks are the dimension's own), and from then on
+writes to any array — the formerly linked one included — do not show in the dimension any more -/
+theorem freeze_ticks (s s' : DState) (p : Path) (i dn : Nat) (ts : List Rat)
+    (hdn : dimAt s p i = .ok dn) (_hl : hasLink s.g dn = true) (_hcur : readTicks s dn = .ok ts)
+    (h : setTicks s p i ts = .ok s') :
+    hasLink s'.g dn = false ∧ isAlias s' dn = false ∧ readTicks s' dn = .ok ts ∧
+    ∀ q vals s'', writeData s' q vals = .ok s'' →
+      hasLink s''.g dn = false ∧ readTicks s'' dn = .ok ts := by
+  obtain ⟨_, _, h3, h4, h5, _⟩ := setTicks_spec h hdn
+  refine ⟨h3, by simp [isAlias, h4], h5, ?_⟩
+  intro q vals s'' hw
+  unfold writeData at hw
+  cases ha : arrayAt s' q with
+  | error e => simp [ha] at hw
+  | ok a =>
+    simp only [ha] at hw
+    cases hc : s'.g.child? a "data" with
+    | none => simp [hc] at hw
+    | some ds =>
+      simp only [hc] at hw
+      cases hlk : look s'.data ds with
+      | none => simp [hlk] at hw
+      | some d =>
+        simp only [hlk] at hw
+        split at hw
+        · cases hw
+        · cases hw
+          refine ⟨h3, ?_⟩
+          have : readTicks { s' with data := put s'.data ds { d with vals := vals } } dn = readTicks s' dn := by
+            unfold readTicks
+            simp [h3]
+          rw [this]; exact h5
+
 /-- explicit ticks and a link exclude each other after either replacing operation -/
 theorem ticks_link_exclusive (s s' : DState) (p : Path) (i dn : Nat) (hdn : dimAt s p i = .ok dn)
     (hk : kindOf s.g dn = kDimRange) (hfresh : s.g.node? s.g.nextKey = none)
@@ -695,6 +742,32 @@ theorem shape_extend (g : Graph) (c : Cont) (keys : List Key) :
        | error e => rfl
        | ok ks => simp only []; cases linkAll g c ks <;> rfl)
 
+/-- the `MultiTag.positions` setter as it stands in `nixio/multi_tag.py` (`Gen.positionsSetterBody`), run on any
+graph with any assigned value (None, any node), is the model's `setRole … "positions"`: None and non-arrays are
+refused with TypeError, an array that is not the block's member with RuntimeError, all before the old link is dropped
+and the new one written (an edit that links first, tests a name, or skips the test for "known" handles breaks the
+translator or this theorem) -/
+theorem shape_positions_setter (g : Graph) (p : Path) (t : Option Nat) (o : Loc) (b : Nat)
+    (ho : resolve g rootLoc p = some o) (hk : kindOf g o.key = "multi_tag") (hb : blockOfPath g p = some b) :
+    setRole g p "positions" t = execRole o.key b Gen.positionsSetterBody g t :=
+  setRole_positions_eq g p t o b ho hk hb
+
+/-- … and the `MultiTag.extents` setter (`if da is None: … else: …`, then the time stamp) is `setRole … "extents"` -/
+theorem shape_extents_setter (g : Graph) (p : Path) (t : Option Nat) (o : Loc) (b : Nat)
+    (ho : resolve g rootLoc p = some o) (hk : kindOf g o.key = "multi_tag") (hb : blockOfPath g p = some b) :
+    setRole g p "extents" t =
+      execRoleIfNone o.key b Gen.extentsNoneBody Gen.extentsSetBody Gen.extentsTail g t :=
+  setRole_extents_eq g p t o b ho hk hb
+
+/-- the `Feature.data` setter as it stands in `nixio/feature.py` (`Gen.featureDataBody`) is the model's
+`setRole … "data"` on any graph and any assigned value: every refusal (None, wrong class, not the block's member,
+a DataFrame on a tagged feature) precedes the first write — `target_type`, the old link, the new link (the seeded
+change C05-4 wrote `target_type` before the tests: outside the vocabulary, and this equation would fail) -/
+theorem shape_feature_data_setter (g : Graph) (p : Path) (t : Option Nat) (o : Loc) (b : Nat)
+    (ho : resolve g rootLoc p = some o) (hk : kindOf g o.key = "feature") (hb : blockOfPath g p = some b) :
+    setRole g p "data" t = (execFeat o.key b t 12 Gen.featureDataBody g none).map (·.1) :=
+  setRole_data_eq g p t o b ho hk hb
+
 /-- `extend` is all or nothing: it succeeds iff EVERY item passes `_accept` in the unchanged graph; otherwise the
 call is refused and (the state being what the refused call leaves) nothing was linked -/
 theorem extend_all_or_nothing (g : Graph) (c : Cont) (keys : List Key)
@@ -831,6 +904,16 @@ example : ((resolve demo.g rootLoc [.name "data", .name "b1", .name "groups", .n
   decide +kernel
 
 /-! ### … and a frame: a range dimension linked to column `v`, the column rewritten afterwards -/
+
+/-! freezing: the linked dimension of `y` reports [30, 40, 50]; exactly these values are assigned as explicit ticks,
+then the formerly linked array is rewritten: the link is gone and the ticks stay -/
+def demoFrozen : DState := runD demo [
+  .setTicks [.name "data", .name "b1", .name "data_arrays", .name "y"] 1 [30, 40, 50],
+  .writeData [.name "data", .name "b1", .name "data_arrays", .name "x"] [0, 1, 2, 300, 400, 500]]
+
+example : (demoDim.bind fun dn => (readTicks demoFrozen dn).toOption) = some [30, 40, 50] := by decide +kernel
+example : (demoDim.map fun dn => (hasLink demoFrozen.g dn, demoFrozen.g.hasChild dn "ticks", isAlias demoFrozen dn)) =
+    some (false, true, false) := by decide +kernel
 
 /-! a kept handle across a deletion: `y` of block `b1` is accepted by the group's list while it is the block's member,
 deleted from the block it is a detached node that `append`, `extend` (even next to the acceptable `x`) and
